@@ -5,7 +5,7 @@ Line protocol for the C17 model: one whole operation sequence per line, run from
 structure; the answer lists the canonical output of every operation.
 
   (OP ...)  with OP =
-    (add c) | (mc a b) | (mf a1 a2 a)   -> (part (c m) ...)   every entered constant c (ascending)
+    (add c) | (mc a b) | (mf a1 a2 a)   -> (part (c m) ...) | (err fuel)   every entered constant c (ascending)
                                            with the least constant m of its class (= all `test`s)
     (test a b)                          -> T | F | (err key)
     (explain a b)                       -> (res ((a b) LABEL ...) ...) sorted by key | (err KIND)
@@ -51,6 +51,7 @@ def resTo (r : Res) : Sexp :=
 def runOps : State → List Sexp → List Sexp → Option (List Sexp)
   | _, [], acc => some acc.reverse
   | s, op :: rest, acc =>
+    if s.stuck then runOps s rest (errTo .fuel :: acc) else
     match op with
     | .list [.atom "add", c] =>
       match c.toNat? with
@@ -58,11 +59,11 @@ def runOps : State → List Sexp → List Sexp → Option (List Sexp)
       | none => none
     | .list [.atom "mc", a, b] =>
       match a.toNat?, b.toNat? with
-      | some a, some b => let s' := mergeConst s a b; runOps s' rest (partOf s' :: acc)
+      | some a, some b => let s' := mergeConst s a b; runOps s' rest ((if s'.stuck then errTo .fuel else partOf s') :: acc)
       | _, _ => none
     | .list [.atom "mf", a1, a2, a] =>
       match a1.toNat?, a2.toNat?, a.toNat? with
-      | some a1, some a2, some a => let s' := mergeComb s a1 a2 a; runOps s' rest (partOf s' :: acc)
+      | some a1, some a2, some a => let s' := mergeComb s a1 a2 a; runOps s' rest ((if s'.stuck then errTo .fuel else partOf s') :: acc)
       | _, _, _ => none
     | .list [.atom "test", a, b] =>
       match a.toNat?, b.toNat? with
